@@ -1,0 +1,8 @@
+//go:build !verif
+
+// Package verifhook provides named hook points for the runtime-verification harness. With the
+// "verif" build tag a handler can be installed per name; without the tag Point is an empty function.
+package verifhook
+
+// Point does nothing unless built with the "verif" tag.
+func Point(name string, arg string) {}
